@@ -132,10 +132,31 @@ func check(c Case) ev.Verdict {
 		ro.CopySizes = sizes
 	}
 	want := ref.Apply(doc, ops, ro)
-	got := lib.Apply(c.Doc, c.Patch, c.Opts)
 	if want.OutOfDomain() {
 		return ev.Excluded("out of domain: "+want.Res.Why, "ood")
 	}
+	if c.Opts.Ensure {
+		for _, op := range ops {
+			if lib.BigIndex(op.Path) {
+				return ev.Excluded("array index above 10^4 under EnsurePathExistsOnAdd (quadratic padding; outside C04's stated domain)")
+			}
+		}
+	}
+	if c.Opts.Limit > 0 && !canonical && !want.OK() && ops[want.FailAt].Op == "copy" {
+		// the size of a copy that cannot be inserted cannot be measured in any output; in a spelling
+		// other than the encoder's own the reference size may differ from the library's, and with it
+		// the answer to "which of the two causes comes first"
+		measured := 0
+		for _, op := range ops[:want.FailAt] {
+			if op.Op == "copy" {
+				measured++
+			}
+		}
+		if measured >= len(ro.CopySizes) && (want.Res.Cause != ref.CCopyLimit || want.Res.Alt != ref.COK) {
+			return ev.Excluded("a copy that cannot be inserted has no measurable output size in a spelling other than the encoder's own")
+		}
+	}
+	got := lib.Apply(c.Doc, c.Patch, c.Opts)
 	if got.Panic != nil {
 		return ev.Verdict{Err: got.Panic}
 	}
